@@ -4,13 +4,14 @@ from .ty import parse_ty
 
 
 class ClassDef:
-    def __init__(self, name, bases=(), fields=None, statics=None, rec=False, optional=()):
+    def __init__(self, name, bases=(), fields=None, statics=None, rec=False, optional=(), class_vars=None):
         self.name = name
         self.bases = list(bases)
         self.fields = {k: parse_ty(v) for k, v in (fields or {}).items()}
         self.statics = statics or {}
         self.rec = rec              # dict with constant string keys
         self.optional = set(optional)   # keys that may be absent ('k' in d)
+        self.class_vars = {k: parse_ty(v) for k, v in (class_vars or {}).items()}   # mutable class attributes
 
 
 class Contract:
@@ -151,6 +152,12 @@ class Registry:
         for c in self.class_chain(cname):
             if fname in self.classes[c].fields:
                 return c, self.classes[c].fields[fname]
+        return None
+
+    def class_var(self, cname, name):
+        for c in self.class_chain(cname):
+            if name in self.classes[c].class_vars:
+                return c, self.classes[c].class_vars[name]
         return None
 
     def static(self, cname, name):
